@@ -74,7 +74,7 @@ def gen_slice_case(rng, k, p_strand=0.2, p_insert=0.75, p_diff=True, measures=("
 
 def replayable(case):
     return {k: case[k] for k in ("k", "response", "transforms", "strand", "kinds", "valid_counts",
-                                 "weighted", "dominant", "empty_wave", "filter_fraction") if k in case}
+                                 "weighted", "dominant", "empty_wave", "filter_fraction", "weights_scaled", "pairwise_alpha") if k in case}
 
 
 def read(part, names):
@@ -272,3 +272,22 @@ def warnings_as_errors(case, names, transforms=_CASE, k=0, population=None):
         if a != b:
             out.append((n, a, b))
     return out
+
+
+def scale_weights(case, factor):
+    """Every weight of the data set multiplied by `factor` (a Fraction or int), at the response level: the
+    weighted count measure and the weighted valid counts are scaled, the unweighted counts stay.  With a
+    factor like 1/64 the weighted bases fall between 0 and 1 (weights normalised to a small total)."""
+    from fractions import Fraction
+    res = case["response"]["result"]
+    ms = res.get("measures", {})
+    done = False
+    for key in ("count", "valid_count_weighted"):
+        m = ms.get(key)
+        if isinstance(m, dict) and isinstance(m.get("data"), list):
+            m["data"] = [float(Fraction(x) * Fraction(factor)) if isinstance(x, (int, float)) and not isinstance(x, bool)
+                         else x for x in m["data"]]
+            done = True
+    if done:
+        case["weights_scaled"] = str(factor)
+    return done
